@@ -3,13 +3,16 @@ import BreezyVerif.Model.C15
 /-
 Line protocol of C15 (fields separated by one space):
 
-  shelve <v> <ids> <B> <W> <SEL> <REC>
-      v    three letters T/F: keepExec, freshExec, pathCheck
+  shelve <v> <ids> <B> <W> <SEL> <REC> <MISS>
+      v    four letters T/F: keepExec, freshExec, pathCheck, closedCheck
       ids  comma list of file ids (naturals)
       B W  trees: entries `id:parent|~:name:kind(f|d|l):exec(T|F):chunks(c.c.c|-)` joined by `;` (`-` = empty)
       SEL  `id:whole:rename:content:kept` joined by `;`, content = n | w | h<bits 0/1>  (`-` = nothing selected)
       REC  comma list of the ids whose recorded executable bit is set in the working tree after shelving
-    -> `E:Malformed`  |  `E:Reoccupied`  |  `ok <closed T|F> <W'> <S> <U> <conflicts>`
+      MISS comma list of the ids that are versioned in W but missing from disk (absent in W)
+    -> `E:Malformed`  |  `E:Reoccupied`  |  `E:Unclosed`  |  `E:ResolveCrash`  |  `ok <closed T|F> <W'> <S> <U | ?> <conflicts> <M1> <M2>`
+       U = `?` when the stored tree is not a tree (unshelveTree = none); M1 / M2 = ids missing after shelve / unshelve
+  mgrc <id:payload,...> <ops n<p> | d<k>>  -> the shelves (id:payload) after the ops
   names <name,name,...>            -> active shelf ids parsed from a directory listing (`-` = none)
   mgr <active ids> <ops n | d<k>>  -> per op the new id / `ok` / `E`, then `|` and the final active list
 -/
@@ -81,11 +84,12 @@ def selOf (l : List (Id × Sel)) : TSel := fun i =>
 
 def parseVariant (s : String) : Option Variant :=
   match s.toList with
-  | [a, b, c] => do
+  | [a, b, c, d] => do
     let a ← parseBool (String.singleton a)
     let b ← parseBool (String.singleton b)
     let c ← parseBool (String.singleton c)
-    pure ⟨a, b, c⟩
+    let d ← parseBool (String.singleton d)
+    pure ⟨a, b, c, d⟩
   | _ => none
 
 /-- hunk selections must fit the two texts (what the UI can offer) -/
@@ -108,10 +112,24 @@ def parseOp (s : String) : Option Mgr.Op :=
   | 'd' :: rest => (String.ofList rest).toNat?.map .delete
   | _ => none
 
+def parseOpC (s : String) : Option Mgr.OpC :=
+  match s.toList with
+  | 'n' :: rest => (String.ofList rest).toNat?.map .new
+  | 'd' :: rest => (String.ofList rest).toNat?.map .delete
+  | _ => none
+
+def parseShelf (s : String) : Option (Nat × Nat) :=
+  match s.splitOn ":" with
+  | [i, p] => do pure ((← i.toNat?), (← p.toNat?))
+  | _ => none
+
+def showIds (ids : List Id) (f : Id → Bool) : String := joinList ((ids.filter f).map toString)
+
 def handle : List String → String
-  | ["shelve", v, ids, b, w, sel, rec] =>
-    match parseVariant v, parseNatList ids, parseTree b, parseTree w, parseSel sel, parseNatList rec with
-    | some v, some ids, some b, some w, some sel, some rec =>
+  | ["shelve", v, ids, b, w, sel, rec, miss] =>
+    match parseVariant v, parseNatList ids, parseTree b, parseTree w, parseSel sel, parseNatList rec,
+        parseNatList miss with
+    | some v, some ids, some b, some w, some sel, some rec, some miss =>
       let bt := treeOf b
       let wt := treeOf w
       let s := selOf sel
@@ -119,17 +137,27 @@ def handle : List String → String
       match shelve v ids s bt wt with
       | .error .malformed => "E:Malformed"
       | .error .reoccupied => "E:Reoccupied"
+      | .error .unclosed => "E:Unclosed"
+      | .error .resolveCrash => "E:ResolveCrash"
       | .ok (w', st) =>
         let recf : Id → Bool := fun i => rec.contains i
-        let u := unshelve v bt w' recf st
+        let missf : Id → Bool := fun i => miss.contains i
+        let u := match unshelveTree v ids bt w' recf st with
+          | some u => showTree ids u
+          | none => "?"
         let nconf := (ids.map fun i => (conflictsAt v bt w' recf st i).length).foldl (· + ·) 0
-        s!"ok {showBool (closed v ids s bt wt)} {showTree ids w'} {showTree ids st} {showTree ids u} {nconf}"
-    | _, _, _, _, _, _ => "bad-op"
+        let m1 := shelveMissing s missf
+        s!"ok {showBool (closed v ids s bt wt)} {showTree ids w'} {showTree ids st} {u} {nconf} {showIds ids m1} {showIds ids (unshelveMissing bt st m1)}"
+    | _, _, _, _, _, _, _ => "bad-op"
   | ["names", ns] => joinList ((Mgr.activeOfNames (splitList ns)).map toString)
   | ["mgr", a, ops] =>
     match parseNatList a, (splitList ops).mapM parseOp with
     | some a, some ops =>
       " ".intercalate (mgrTrace a ops) ++ " | " ++ joinList ((Mgr.run a ops).map toString)
+    | _, _ => "bad-op"
+  | ["mgrc", a, ops] =>
+    match (splitList a).mapM parseShelf, (splitList ops).mapM parseOpC with
+    | some a, some ops => joinList ((Mgr.runC a ops).map fun e => s!"{e.1}:{e.2}")
     | _, _ => "bad-op"
   | _ => "bad-op"
 
